@@ -24,7 +24,7 @@ TOs == /\ Tr[l].e = "Os"
        /\ LET e == Tr[l] IN
           /\ Judge(s.pc # "done", l, e, "an operating-system call after the source has reached its verdict")
           /\ Judge(s.pc = "done" \/ (e.fn = NextCall(s) /\ e.o \in Outcomes(s)), l, e, NextCall(s))
-          /\ Judge(e.fn \in {"open", "close"} \/ e.len = 32, l, e, "asks for exactly 32 bytes")
+          /\ Judge(e.fn \in {"open", "close"} \/ (e.len >= 1 /\ e.len <= 32), l, e, "asks for at most the 32 bytes of the seed")
           /\ s' = IF s.pc # "done" /\ e.o \in Outcomes(s) THEN TrngStep(s, e.o) ELSE s
        /\ variant' = variant
 
